@@ -389,6 +389,20 @@ Definition c01_okb (sizes : list nat) (mis jds : list (list nat)) (calls : list 
        (seq 0 (length idxs)))
     (seq 0 (length mis)).
 
+(* every callback result only connects vertices of its own argument list (this is what keeps
+   vertex ids inside 0..N-1 and ties the emitted edges to the drawn stubs) *)
+Definition endpoints (es : list (nat * nat)) : list nat := flat_map (fun e => [fst e; snd e]) es.
+
+Fixpoint closed_okb (calls : list call) (results : list (nat * shape)) : bool :=
+  match calls, results with
+  | [], [] => true
+  | c :: cs, r :: rs =>
+      Nat.eqb (fst r) (fst c) &&
+      forallb (fun v => memb v (snd c)) (endpoints (edges_of (snd r))) &&
+      closed_okb cs rs
+  | _, _ => false
+  end.
+
 (* ------------------------------------------------------------------ C02: specification checker *)
 (* one row of the edge list *)
 Definition row : Type := ((nat * nat) * nat * nat)%type.
@@ -541,7 +555,13 @@ Definition gen_run (t : tree) : tree :=
 Definition c01_run := gen_run.
 Definition c02_run := gen_run.
 
-(* input: [tag; jds; sizes; motif_indices; calls; jds_out; verts]
+Definition dec_shape (t : tree) : shape :=
+  match t_z (t_nth 0 t) with
+  | 1%Z => Bare (t_nat (t_nth 1 t)) (t_nat (t_nth 2 t))
+  | _ => Edges (t_pairs (t_nth 1 t))
+  end.
+
+(* input: [tag; jds; sizes; motif_indices; calls; jds_out; verts; results = list of [j; shape]]
    answer: 2 = hypotheses of C01 not met (nothing to check), 1 = property holds, 0 = violated *)
 Definition c01_check (t : tree) : tree :=
   let tag := t_nat (t_nth 0 t) in
@@ -551,13 +571,10 @@ Definition c01_check (t : tree) : tree :=
   let calls := map dec_call (t_list (t_nth 4 t)) in
   let jds_out := t_natss (t_nth 5 t) in
   let verts := t_nats (t_nth 6 t) in
-  if validb sizes mis jds then of_bool (c01_okb sizes mis jds calls jds_out verts) else I 2.
-
-Definition dec_shape (t : tree) : shape :=
-  match t_z (t_nth 0 t) with
-  | 1%Z => Bare (t_nat (t_nth 1 t)) (t_nat (t_nth 2 t))
-  | _ => Edges (t_pairs (t_nth 1 t))
-  end.
+  let results := map (fun x => (t_nat (t_nth 0 x), dec_shape (t_nth 1 x))) (t_list (t_nth 7 t)) in
+  if validb sizes mis jds
+  then of_bool (c01_okb sizes mis jds calls jds_out verts && closed_okb calls results)
+  else I 2.
 
 (* input: [tag; names; results = list of [j; shape]; edge column (raw); name column; id column] *)
 Definition c02_check (t : tree) : tree :=
